@@ -32,6 +32,7 @@ type IORec struct {
 	Len    int    // requested length
 	API    int    // index of the harness-level op in progress
 	Failed bool   // the injected fault fired on this call
+	Rep    int    // further reads of the same length, each one byte lower, folded into this record (a byte-wise backward scan)
 	Data   []byte // payload of a WriteAt (only when KeepData)
 }
 
@@ -119,6 +120,15 @@ func (m *MemFile) tick(kind IOKind, off int64, n int, data []byte) (rec *IORec, 
 			fail = true
 			m.Plan.Fired = true
 			m.Plan.FiredKind = kind
+		}
+	}
+	if m.KeepLog && kind == IORead && !fail && len(m.Log) > 0 {
+		// gkvlite looks for the last root record with one small read per byte; fold
+		// such a run into one record covering [Off, Off+Len+Rep)
+		if l := &m.Log[len(m.Log)-1]; l.Kind == IORead && !l.Failed && l.Len == n && l.API == m.CurAPI && l.Off-1 == off {
+			l.Off = off
+			l.Rep++
+			return l, false
 		}
 	}
 	if m.KeepLog {
